@@ -2,6 +2,31 @@ module verif/harness
 
 go 1.25.3
 
-require perkeep.org v0.0.0
+require (
+	go4.org v0.0.0-20230225012048-214862532bf5
+	perkeep.org v0.0.0
+)
+
+require (
+	cloud.google.com/go/compute/metadata v0.3.0 // indirect
+	github.com/dustin/go-humanize v1.0.1 // indirect
+	github.com/edsrzf/mmap-go v1.1.0 // indirect
+	github.com/golang/snappy v0.0.4 // indirect
+	github.com/google/uuid v1.6.0 // indirect
+	github.com/mattn/go-isatty v0.0.20 // indirect
+	github.com/remyoudompheng/bigfft v0.0.0-20230129092748-24d4a6f8daec // indirect
+	github.com/syndtr/goleveldb v1.0.1-0.20210305035536-64b5b1c73954 // indirect
+	golang.org/x/sys v0.33.0 // indirect
+	modernc.org/fileutil v1.0.1-0.20200808163328-2079183a536e // indirect
+	modernc.org/internal v1.0.3 // indirect
+	modernc.org/kv v1.0.4 // indirect
+	modernc.org/libc v1.29.0 // indirect
+	modernc.org/lldb v1.0.2 // indirect
+	modernc.org/mathutil v1.6.0 // indirect
+	modernc.org/memory v1.7.2 // indirect
+	modernc.org/sortutil v1.1.0 // indirect
+	modernc.org/sqlite v1.28.0 // indirect
+	modernc.org/zappy v1.0.3 // indirect
+)
 
 replace perkeep.org => /repo
